@@ -11,6 +11,7 @@
 import Gen.SrcC13
 import CRProofs.BenchId
 import CRProofs.BenchIdGrammar
+import CRProofs.BenchIdValid
 set_option linter.unusedSimpArgs false
 set_option linter.unusedVariables false
 namespace CR.BenchId
@@ -341,5 +342,55 @@ theorem tie_parse_vehicle_id (v : Str) : Gen.Reader_parse_vehicle_id v = parseVe
           | none => simp [throw, throwThe, MonadExceptOf.throw]
           | some t => simp [pure, Except.pure]
         · simp [hd, bind, Except.bind]
+
+/-- the id part of `_parse_planning_problem_solution` (before the trajectory node is read) is one step of the model's
+    `readPps`: `parseVehicleId`, then `parseCostId` -/
+theorem tie_parse_pps_ids (v c : Str) :
+    Gen.Reader_parse_pps_ids v c () =
+      (match parseVehicleId v with
+       | .error e => .error e
+       | .ok (m, t) =>
+         match parseCostId c with
+         | .error e => .error e
+         | .ok k => .ok (m, t, k)) := by
+  unfold Gen.Reader_parse_pps_ids parseCostId
+  simp only [tie_parse_vehicle_id, contains_map_find, enumByName]
+  cases parseVehicleId v with
+  | error e => rfl
+  | ok mt =>
+    obtain ⟨m, t⟩ := mt
+    cases hk : Cost.all.find? (fun k => decide (k.name = c)) with
+    | none => simp [bind, Except.bind, throw, throwThe, MonadExceptOf.throw]
+    | some k => simp [bind, Except.bind, pure, Except.pure]
+
+/-! ## the property on the generated definitions -/
+
+/-- C13 stated on the GENERATED definitions: for valid constructor arguments the translated constructor builds `norm r`,
+    the translated `__str__` prints it, and the translated `from_benchmark_id` turns the print back into the same
+    attribute values. -/
+theorem T13_generated_roundtrip {cs : List Str} (hcs : CountriesOk cs) {r : Raw} (hv : Valid cs r) :
+    Gen.ScenarioID_init cs r.coop r.country r.mapName r.mapId r.config r.beh (predToPV r.pred) r.version = .ok (idToS (norm r)) ∧
+    (Gen.ScenarioID_str (norm r) >>= fun s => Gen.ScenarioID_from_benchmark_id cs s r.version) = .ok (idToS (norm r)) := by
+  constructor
+  · rw [tie_init, mk_valid hv]; rfl
+  · rw [tie_str]
+    show Gen.ScenarioID_from_benchmark_id cs (print (norm r)) r.version = _
+    rw [tie_from_benchmark_id, parse_print_valid hcs hv]; rfl
+
+/-- … and for solutions: the translated `Solution.benchmark_id` followed by the translated `_parse_benchmark_id` and
+    `_parse_vehicle_id` gives back the vehicle models / types, the cost function names and the scenario id. -/
+theorem T13_generated_solution_roundtrip {cs : List Str} (hcs : CountriesOk cs) {r : Raw} (hv : Valid cs r)
+    (pps : List Pps) (hne : pps ≠ []) :
+    (Gen.Solution_benchmark_id pps (norm r) >>= Gen.Reader_parse_benchmark_id cs)
+      = .ok (Gen.Solution_vehicle_ids pps, Gen.Solution_cost_ids pps, idToS (norm r)) ∧
+    ∀ p ∈ pps, Gen.Reader_parse_vehicle_id (Gen.PlanningProblemSolution_vehicle_id p.model p.vtype) = .ok (p.model, p.vtype) := by
+  constructor
+  · rw [tie_benchmark_id]
+    show Gen.Reader_parse_benchmark_id cs _ = _
+    rw [tie_parse_benchmark_id, parseBenchmarkId_benchmarkId hcs hv _ _ (by simpa using hne) (by simpa using hne),
+      tie_vehicle_ids, tie_cost_ids]
+    rfl
+  · intro p _
+    rw [tie_parse_vehicle_id, tie_vehicle_id, parseVehicleId_vehicleId]
 
 end CR.BenchId
